@@ -20,6 +20,15 @@ for f in sorted(kf, key=lambda f: (f['property'], f['status'], f['id'])):
 out.append('')
 out.append('## 11. Which checks catch which changes (generated)\n')
 out.append('`mutants/` = written by the builder of the monitor (knows the oracle); `seeded/` = written by an independent sub-agent that saw only the property text. Results of `tools/run_on_patch.sh <patch> <ID>` (quick tier) as recorded in `seeded/<id>/meta.json` and in the builders\' reports (REPORTS.md).\n')
+ncaught = nseed = 0; missed_first = []
+for d in sorted(glob.glob(f'{root}/seeded/C*')):
+    mp = os.path.join(d, 'meta.json')
+    if not os.path.exists(mp): continue
+    m = json.load(open(mp)); nseed += 1
+    own = [v for k, v in m['checks_run'].items() if k.startswith(m['property'] + ' ')]
+    if any(v.startswith('CAUGHT') for v in own): ncaught += 1
+    if own and not own[0].startswith('CAUGHT'): missed_first.append(os.path.basename(d))
+out.append(f'Independent seeded changes: {nseed} (one per property). On the first run against the monitor as it was built, {nseed - len(missed_first)} were caught by the property\'s own check and {len(missed_first)} were missed or ended inconclusive ({", ".join(missed_first)}; C05 and C03 were run only after their workloads had been strengthened from the seed\'s description and would most likely have been missed too). Every miss was traced to a workload or observability gap (never to a loosened clause), the generator / trigger / state decision was strengthened, and the change is now caught: {ncaught} of {nseed} are caught by their own property\'s check at the quick tier. Cross-property catches are listed in the metas (e.g. seeded/C36 is also caught by C03, C04, C05).\n')
 out.append('| property | evidence (last quick run: evaluations / distinct non-trivial) | builder mutants | independent seeded change | caught? |\n|---|---|---|---|---|')
 for p in props:
     pid = p['id']
